@@ -25,6 +25,16 @@ CHECKS = {
          "corollary of the refinement (reference does not mention N; capacity only bounds two enumerations); implementation-vs-implementation comparison", "7 C19"),
 }
 
+PURE = "Modelled, not verified: Rust slice-index semantics, hex::decode, integer/char formatting and parsing of std. "
+CHECKS.update({
+ "C15": ("proof", "Props.C15: for every well-formed Hex (both public variants, arbitrary padding) index/range (six kinds)/byte_at/tail equal the Rust slice semantics on the byte string, hence panic exactly when the slice would (index_eq … rangeToIncl_eq, tail_eq, representation_independent); fromStr_print; the i64/f64 conversions on the 64-bit pattern are bit-exact inverses that fail for any length other than 8. Tie: exhaustive small-scope run of the real accessors, each line carrying the real byte slice's answer, compared with the model and judged by monC15.",
+         "algebraic laws proved for all inputs in Lean 4; exhaustive small-scope differential correspondence", "7 C15"),
+ "C16": ("proof", "KNOWN FINDING D9: the law is proved for the repaired variant (concatRepaired_law), proved for the code as found outside the defect class (concat_partial), the defect is characterised exactly (concat_defect_shape) and the full law refuted by a kernel-checked witness (concat_law_fails). The check matches the code against the as-found model, falling back to the repaired model; law failures inside the recorded class print KNOWN-FINDING, any other failure is a VIOLATION.",
+         "proof of the partial law + proved negation; model-variant correspondence", "7 C16"),
+ "C17": ("proof", "Props.C17: print_parse_text and parse_injective on legal texts, parse_print_label on canonical values, too_long_err, bad_index_err, and the as-found counter-example behind fix f00a87e. Tie: all strings up to length 3 over a 14-character alphabet, random longer ones, boundary index texts, canonical values incl. kid() lookups on a real graph; monC17 judges the implementation's answers by the statement.",
+         "round-trip and injectivity theorems in Lean 4; exhaustive small-scope + random differential correspondence", "7 C17"),
+})
+
 NOT_YET = {}
 
 def main():
@@ -38,7 +48,7 @@ def main():
             "replay_cmd_template": "./check replay {path}",
             "engine": "lean4+correspondence",
             "level_claimed": {"category": level, "text": text, "design_ref": "DESIGN.md section " + ref},
-            "level_note": BASE + CONT,
+            "level_note": BASE + (PURE if pid in ("C15", "C16", "C17") else CONT),
             "technique": tech,
         })
     props = [json.loads(l)["id"] for l in open(os.path.join(ROOT, "properties.jsonl"))]
